@@ -170,11 +170,9 @@ func (g *jgen) script(timed bool) {
 	steps := 3 + r.Intn(14)
 	for i := 0; i < steps; i++ {
 		if timed && r.Intn(3) == 0 {
-			// well away from the boundary: half the timeout or twice the timeout
-			e := int64(timeout) / 2
-			if r.Intn(2) == 0 {
-				e = int64(timeout) * 2
-			}
+			// away from the boundary by at least a twentieth of the timeout (50 ms or more, far
+			// beyond the time a call takes): half, nine tenths, just over, twice the timeout
+			e := []int64{int64(timeout) / 2, int64(timeout) * 2, int64(timeout) / 10 * 9, int64(timeout) / 20 * 21}[r.Intn(4)]
 			if strings.HasPrefix(g.do(fmt.Sprintf("tick %d", e)), "st=done") {
 				return
 			}
